@@ -65,7 +65,10 @@ func LoadWorld(repo string, overlay map[string][]byte, tags string) (*World, err
 		Overlay: overlay,
 		Env:     append(os.Environ(), "GOWORK=off", "GOFLAGS=-mod=mod"),
 	}
-	if tags != "" {
+	if strings.HasPrefix(tags, "env:") {
+		// another target platform, e.g. "env:GOOS=js GOARCH=wasm" (the wasm client)
+		cfg.Env = append(cfg.Env, strings.Fields(strings.TrimPrefix(tags, "env:"))...)
+	} else if tags != "" {
 		cfg.BuildFlags = []string{"-tags=" + tags}
 	}
 	pkgs, err := packages.Load(cfg, ".", gbnPath)
